@@ -63,7 +63,8 @@ def suite(wt, junit):
                 break
         ok = False
         if node:
-            for _ in range(2):
+            for _ in range(4):
+                time.sleep(3)
                 r = sh(f"cd {wt} && PYTHONPATH={wt} /venv/bin/python -m pytest -q -p no:cacheprovider --timeout=900 '{node}'")
                 if r.returncode == 0:
                     ok = True
